@@ -106,6 +106,11 @@ inductive Op where
   | replaceChar (name : String) (site : Int) (c : Byte)
   | rmGapSites (num den : Nat) (ends : Bool)
   | compress
+  | unalign
+  /-- `RenameRegexp`: `ok` = the regular expression compiled; `names` = the value of
+  `r.ReplaceAllString(name, replace)` for every row in order (regexp is external: computed by Go's regexp) -/
+  | renameRe (ok : Bool) (names : List String)
+  | setAlpha (alphabet : Int)
 deriving Repr
 
 /-- the float threshold test of the cleaning functions: `cutoff = num/den` as `float64` -/
@@ -126,6 +131,10 @@ def plusList (l : List Nat) : String := if l.isEmpty then "_" else "+".intercala
 /-- status of a site removal: leading and trailing removed runs, kept and removed positions -/
 def sitesStatus (first last : Nat) (kept removed : List Nat) : String :=
   "ok[" ++ toString first ++ "," ++ toString last ++ "," ++ plusList kept ++ "," ++ plusList removed ++ "]"
+
+/-- a name map in a status string: `old=new` entries, percent-encoded, in the order given -/
+def mapStatus (m : List (String × String)) : String :=
+  "[" ++ ",".intercalate (m.map fun p => pctEnc p.1 ++ "=" ++ pctEnc p.2) ++ "]"
 
 /-- one step: new state and a status string (`ok`, `err`, `na`, with op-specific payload) -/
 def stepOp (b : Bag) : Op → Bag × String
@@ -193,6 +202,15 @@ def stepOp (b : Bag) : Op → Bag × String
     match compressBag b with
     | none => (b, "PANIC")
     | some r => (r.1, "ok[" ++ plusList r.2 ++ "]")
+  | .unalign =>
+    -- `NewSeqBag` ends the process on an alphabet other than the three it knows (an alignment never carries
+    -- another one: `NewAlign` turns BOTH into NUCLEOTIDS)
+    if !seqBagAlphabetOK b.alphabet then (b, "EXIT") else (unalign b, "ok")
+  | .renameRe ok names =>
+    -- a regular expression that does not compile: an error, nothing touched (`namemap` stays empty)
+    if !ok then (b, "err" ++ mapStatus []) else
+    let r := renameRegexp names b; (r.1, "ok" ++ mapStatus r.2)
+  | .setAlpha a => let r := setAlphabet a b; (r.1, if r.2 then "err" else "ok")
 
 /-- run a history, collecting the states after every step -/
 def runOps : Bag → List Op → List (Bag × String)
